@@ -1147,7 +1147,7 @@ def check_c12(tier, seed, replay):
     # 2. ThreadSanitizer: free running with yield/sleep perturbation
     env = dict(os.environ)
     env['TSAN_OPTIONS'] = 'halt_on_error=0:exitcode=66'
-    jobs = [(sc, sd, nt) for sc in ('s1', 's2', 's3', 's4', 's5', 's6', 's7', 'f1') for sd in seeds for nt in nthreads]
+    jobs = [(sc, sd, nt) for sc in ('s1', 's2', 's3', 's4', 's5', 's6', 's7', 's8', 'f1') for sd in seeds for nt in nthreads]
 
     def run_tsan(j):
         sc, sd, nt = j
@@ -1178,7 +1178,7 @@ def check_c12(tier, seed, replay):
     unheld = collections.Counter()
     lin_fail = 0
     nops = 0
-    hjobs = [(sc, sd, nt) for sc in ('s1', 's2', 's3', 's4', 's5', 's6', 's7', 'f1', 'l1') for sd in seeds for nt in nthreads]
+    hjobs = [(sc, sd, nt) for sc in ('s1', 's2', 's3', 's4', 's5', 's6', 's7', 's8', 'f1', 'l1') for sd in seeds for nt in nthreads]
     try:
         tmodel = vlib.build_lean(None, vlib.LEAN_DIR)
     except vlib.BuildError as e:
@@ -1273,7 +1273,7 @@ def check_c12(tier, seed, replay):
         theorems=[dict(name=n, axioms=a) for n, a in audit['theorems']],
         programs=runs, traces_validated_against_impl=runs - races - lin_fail, disagreements_checked=races + lin_fail,
         evaluations=runs, distinct_nontrivial=runs,
-        rule='each run is one (scenario, seed, thread count): 7 scenarios + forced critical-section schedules (f1) under ThreadSanitizer, the same + the linearization scenario with the '
+        rule='each run is one (scenario, seed, thread count): 8 scenarios + forced critical-section schedules (f1) under ThreadSanitizer, the same + the linearization scenario with the '
              'instrumented lock; thread counts %s, %d seeds, %d iterations per thread' % (nthreads, len(seeds), iters),
         samples=['h_conc_tsan s2 %d 4 %d' % (seeds[0], iters), 'h_conc_hook l1 %d 8 60' % seeds[0]], exhaustive=False,
         lock_table={k: dict(held=table[k], unheld=unheld[k]) for k in sorted(table)},
